@@ -37,7 +37,7 @@ func init() {
 		ID:    "C01",
 		Level: "exploration",
 		Rule: "families: (a) definition space: header+file_id+one single-field definition (message x field number x base-type byte x size x byte order)+matching data record, through Decode/DecodeChained (accepted definitions again with 4 payload patterns, as compressed-timestamp records with and without time reference, with developer descriptors, with 1-byte reads, and as the file_id definition through DecodeHeaderAndFileID); " +
-			"(b) header space (size byte x truncation x protocol x data type x data size x header CRC) through all six entry points; (c) record-header space: every pair of record header bytes after file_id with model-expected bodies, each cut at every offset (re-framed and not); (d) crasher inputs and testdata files cut at every/strided offsets. " +
+			"(b) header space (size byte x truncation x protocol x data type x data size x header CRC) through all six entry points; (c) record-header space: every pair of record header bytes after file_id with model-expected bodies, each cut at every offset (re-framed and not); (d) crasher inputs and testdata files cut at every/strided offsets; (e) developer-field space: 0..255 developer descriptors of sizes 0..255 with 0/1/3/255 regular fields, known / unknown / file_id messages. " +
 			"Oracle: every call returns (no panic; watchdog for hangs). distinct = distinct (entry point, error-class or accepted) outcomes x definition classes",
 		Assumptions: []string{"readers that return (0,nil) forever are outside the alphabet", "arbitrary deep garbage beyond the structured families is not enumerated"},
 		Run:         runC01,
@@ -123,6 +123,7 @@ func runC01(w *vx.W) {
 	c01Headers(c)
 	c01RecordHeaders(c)
 	c01Corpus(c)
+	c01DevFields(c)
 	c01Definitions(c)
 }
 
@@ -396,6 +397,60 @@ func c01Definitions(c *c01ctx) {
 					if r1.Err == nil {
 						c.call("Decode", b, 0)
 						c.call("DecodeHeaderAndFileID", b, 1)
+					}
+				}
+			}
+		}
+	}
+}
+
+// ---------- (e) developer-field and multi-field space ----------
+
+// c01DevFields: definitions with the developer flag and 0..255 developer descriptors of sizes up to 255, with
+// 0 / 1 / 255 regular fields, for a known and an unknown message, followed by a matching data record.
+func c01DevFields(c *c01ctx) {
+	w := c.w
+	var idx int64
+	for _, m := range []uint16{20, 0xFF00, 0} {
+		for _, nreg := range []int{0, 1, 3, 255} {
+			for _, ndev := range []int{0, 1, 2, 3, 4, 5, 16, 255} {
+				for _, dsz := range []int{0, 1, 2, 200, 254, 255} {
+					for _, rsz := range []int{1, 255} {
+						for o := 0; o < 2; o++ {
+							idx++
+							if !w.Mine(idx) {
+								continue
+							}
+							d := fitmodel.Def{Local: 1, Big: o == 1, Global: m, DevFlag: true}
+							for i := 0; i < nreg; i++ {
+								// unlisted field numbers (200..) as byte arrays: accepted for any size
+								d.Fields = append(d.Fields, fitmodel.FieldDef{Num: byte(200 + i%50), Size: byte(rsz), Base: fitmodel.Byte})
+							}
+							for i := 0; i < ndev; i++ {
+								d.Dev = append(d.Dev, fitmodel.DevDef{Num: byte(i), Size: byte(dsz), Idx: byte(i % 3)})
+							}
+							pl := make([]byte, d.DataLen())
+							for i := range pl {
+								pl[i] = byte(i)
+							}
+							ft := byte(4)
+							recs := fitmodel.FileIdRecords(0, ft)
+							if m == 0 {
+								// the definition is a further file_id definition: keep the type
+								d.Fields = append([]fitmodel.FieldDef{{Num: 0, Size: 1, Base: fitmodel.Enum}}, d.Fields...)
+								pl = append([]byte{ft}, pl...)
+							}
+							recs = append(recs, d.Bytes(), fitmodel.Data(1, pl), fitmodel.Data(1, pl))
+							b := fitmodel.File(fitmodel.DefaultHeader, recs...)
+							res := c.call("Decode", b, 0)
+							w.Fam("e:developer-field-definitions", 1)
+							w.DistinctS(fmt.Sprintf("dev/%d/%d/%d/%s", nreg, ndev, dsz, errClass(res.Err)))
+							c.call("DecodeChained", b, 0)
+							if len(b) < 20000 {
+								c.call("Decode", b, 1)
+							}
+							c.call("Decode", b[:len(b)-len(pl)/2-3], 0)
+						}
 					}
 				}
 			}
